@@ -323,3 +323,60 @@ func typeInvKey(t types.Type) string {
 	}
 	return ""
 }
+
+// VerifyFuncLit checks the body of a function literal against closure
+// postconditions: the literal is executed once for arbitrary arguments in the
+// state in which it is created (captured variables keep their current values;
+// the closures under contract do not write them), and every return must
+// establish the clauses. results names the literal's results in the clauses.
+func (e *Engine) VerifyFuncLit(st *State, x *ast.FuncLit, results []string, ensures []contract.Clause) error {
+	sig, ok := e.info().TypeOf(x).(*types.Signature)
+	if !ok {
+		return e.errf(x.Pos(), "function literal without signature")
+	}
+	sub := st.Clone()
+	for i := 0; i < sig.Params().Len(); i++ {
+		p := sig.Params().At(i)
+		sub.vars[p] = e.Fresh("arg!"+p.Name(), SortOf(p.Type()))
+		e.typeFacts(sub, Val{sub.vars[p], p.Type()})
+	}
+	for i := 0; i < sig.Results().Len(); i++ {
+		r := sig.Results().At(i)
+		if r.Name() != "" {
+			sub.vars[r] = e.ZeroOf(r.Type())
+		}
+	}
+	saved := e.litSig
+	e.litSig = sig
+	outs, err := e.execBlock(sub, x.Body.List)
+	e.litSig = saved
+	if err != nil {
+		return err
+	}
+	for _, o := range outs {
+		if o.kind != oReturn && o.kind != oFall {
+			return e.errf(x.Pos(), "break/continue escaped a function literal")
+		}
+		if o.kind == oFall && sig.Results().Len() > 0 {
+			continue
+		}
+		env := e.newEnv(o.st, x.Body.Rbrace)
+		for i, rn := range results {
+			if v, ok := o.st.named[fmt.Sprintf("$res%d", i)]; ok {
+				env.Bound[rn] = v
+			}
+		}
+		for i, en := range ensures {
+			v, err := e.evalSpec(env, en.Expr)
+			if err != nil {
+				return fmt.Errorf("%s:%d: %v", en.File, en.Line, err)
+			}
+			name := en.Name
+			if name == "" {
+				name = fmt.Sprintf("closure-ensures#%d", i+1)
+			}
+			e.oblige(o.st, "post", "closure:"+name, x.Body.Rbrace, v.T)
+		}
+	}
+	return nil
+}
